@@ -177,6 +177,14 @@ func genOp(r *rand.Rand, fed *Fed, k int) (hOp, string, string) {
 	}
 	text := strings.Replace(q.Text, "Op0", name, 1)
 	switch p := r.Intn(100); {
+	case p < 5:
+		// introspection with the name in a variable: validation looks at the declared type only, the value is the client's
+		op["query"] = fmt.Sprintf("query %s($n: String!) { __type(name: $n) { name kind } }", name)
+		vals := []interface{}{"Query", "NoSuchType", float64(5), true, nil, []interface{}{"Query"}, map[string]interface{}{"a": "b"}}
+		if k := r.Intn(len(vals) + 1); k < len(vals) {
+			op["variables"] = map[string]interface{}{"n": vals[k]}
+		}
+		tag = "introspection-by-variable"
 	case p < 62:
 		op["query"] = text
 		if len(q.Vars) > 0 {
@@ -389,6 +397,9 @@ func runHTTP(cfg *runCfg, prop string) error {
 		if cs == nil {
 			g := &fedGen{r: r, MultiHomePct: 20}
 			cs = &hCase{Fed: g.Spec(), Salt: r.Uint32(), FaultPc: []int{0, 0, 0, 25}[r.Intn(4)]}
+			if r.Intn(12) == 0 {
+				cs.FaultPc = 100 // every service call fails: a batch may hold more failing operations than any fixed number of slots
+			}
 			if r.Intn(3) == 0 {
 				cs.Cache = true
 				cs.Warm = r.Intn(2) == 0
@@ -472,7 +483,10 @@ func runHTTP(cfg *runCfg, prop string) error {
 				case 6:
 					rq.Body = []interface{}{map[string]interface{}{}}
 				case 7:
-					raw := []string{"{", "", "[", "{\"query\": }", "nul", "\x00\x01", "[{\"query\":\"{hello}\"},]"}[r.Intn(7)]
+					raw := []string{"{", "", "[", "{\"query\": }", "nul", "\x00\x01", "[{\"query\":\"{hello}\"},]",
+						// a complete operation followed by something else is not a JSON payload either
+						"{\"query\":\"{ hello }\"}]", "{\"query\":\"{ hello }\"} x", "{\"query\":\"{ hello }\"}{\"query\":\"{ hello }\"}",
+						"[{\"query\":\"{ hello }\"}] ]", "{\"query\":\"{ hello }\"}\n[{\"query\":"}[r.Intn(12)]
 					rq.Raw = &raw
 				default:
 					op, nm, _ := genOp(r, fed, 0)
